@@ -270,6 +270,23 @@ Definition execute_plugins (pc : option plugin_cfg) (user db : bytes) (ast : lis
       end
   end.
 
+(** ConnectionPool::from_config (pool.rs, both where the server pools are built and where
+    PoolSettings is filled): [match pool_config.plugins { Some(p) => Some(p), None =>
+    config.plugins }].  A pool's own [pools.<name>.plugins] section, when present, REPLACES
+    the global [plugins] section as a whole for that pool (no per-plugin merge: pgcat.toml
+    says all plugins have to be configured there again); a pool without one inherits the
+    global section. *)
+Definition effective_plugins (global pool : option plugin_cfg) : option plugin_cfg :=
+  match pool with Some p => Some p | None => global end.
+
+(** what the wire check needs to know of the effective section *)
+Definition plugins_summary (pc : option plugin_cfg) : option (bool * list bytes * bool * list bytes) :=
+  match pc with
+  | None => None
+  | Some pc => Some (ta_present pc && ta_enabled pc, ta_tables pc,
+                     ic_present pc && ic_enabled pc, map r_query (ic_rules pc))
+  end.
+
 Close Scope Z_scope.
 
 (* ------------------------------------------------------------------------- *)
